@@ -1,9 +1,262 @@
-//! STUB component for rqsc -- to be written
+//! component 22: RQSC.  Case vocabulary documented in coq/theories/Spec/RqscS.v (GAS arguments: Spec/GasS.v).
 use crate::sx::*;
+use crate::t_hest::{gas, rand_gas};
+use crate::tcommon::*;
 use crate::Emit;
+use acpi_tables::rqsc::*;
 
-pub fn run(_case: &Sx, _out: &mut Vec<Ev>) {
-    panic!("harness: component rqsc not implemented")
+fn controller_type(n: u64) -> ControllerType {
+    match n {
+        0 => ControllerType::Capacity,
+        1 => ControllerType::Bandwidth,
+        _ => panic!("harness: bad controller type"),
+    }
 }
 
-pub fn gen(_tier: &str, _rng: &mut Rng, _emit: &mut Emit) {}
+fn resource_type(n: u64) -> ResourceType {
+    match n {
+        0 => ResourceType::Cache,
+        1 => ResourceType::Memory,
+        _ => panic!("harness: bad resource type"),
+    }
+}
+
+fn resource_id(s: &Sx) -> ResourceID {
+    let r = s.list();
+    let n = |i: usize| r[i].num();
+    match n(0) {
+        0 => ResourceID::Cache(CacheResource::new(n(1) as u32)),
+        1 => ResourceID::MemoryAffinityStructure(MemoryAffinityStructureResource::new(n(1) as u32, n(2))),
+        2 => ResourceID::ACPIDevice(ACPIDeviceResource::new(n(1), n(2) as u32)),
+        3 => ResourceID::PCIDevice(PCIDeviceResource::new(n(1) as u32)),
+        4 => ResourceID::VendorSpecific(n(1) as u8, r[2].bytes()),
+        _ => panic!("harness: bad resource id"),
+    }
+}
+
+pub fn run(case: &Sx, out: &mut Vec<Ev>) {
+    let c = case.list();
+    let ctor = c[0].list();
+    let (oem, tbl, rev) = hdr_args(ctor);
+    let mut t = RQSC::new(oem, tbl, rev);
+    for op in &c[1..] {
+        if let Sx::A(_) = op {
+            out.push(image(&t));
+            continue;
+        }
+        let o = op.list();
+        let n = |i: usize| o[i].num();
+        match n(0) {
+            1 => {
+                let mut q = QoSController::new(controller_type(n(1)), gas(&o[2]), n(3) as u32, n(4) as u32, n(5) as u16);
+                for r in o[6].list() {
+                    let r = r.list();
+                    q.add_resource(ResourceStructure::new(resource_type(r[0].num()), r[1].num() as u16, resource_id(&r[2])));
+                }
+                t.add_controller(q);
+            }
+            _ => panic!("harness: bad rqsc op"),
+        }
+        out.push(Ev::Num(0));
+    }
+}
+
+// ---------------------------------------------------------------------------------------------- generators
+
+thread_local! {
+    // set by gen18: the C18 oracle demands a refusal whenever the reference is None, so its cases must leave the reference's
+    // domain only through a length or count that does not fit its field (no standard type code, no short vendor payload)
+    static STRICT: std::cell::Cell<bool> = std::cell::Cell::new(false);
+}
+
+fn vendor(rng: &mut Rng, n: usize) -> Sx {
+    // type codes 4..255 are vendor codes; 0..3 (the standard codes) only now and then
+    let strict = STRICT.with(|s| s.get());
+    let ty = if !strict && rng.chance(1, 100) { rng.below(4) } else { rng.range(4, 255) };
+    l(vec![a(4), a(ty), blist(&rng.bytes(n))])
+}
+
+fn rand_resource_id(rng: &mut Rng, kind: u64) -> Sx {
+    match kind {
+        0 => l(vec![a(0), a(rng.val(32))]),
+        1 => l(vec![a(1), a(rng.val(32)), a(rng.val(64))]),
+        2 => l(vec![a(2), a(rng.val(64)), a(rng.val(32))]),
+        3 => l(vec![a(3), a(rng.val(32))]),
+        _ => {
+            // mostly payloads that cover ID1 and ID2 (12 bytes); every length 0..40 has its own cases in gen
+            let strict = STRICT.with(|s| s.get());
+            let n = if !strict && rng.chance(1, 100) { rng.below(12) } else { rng.range(12, 40) } as usize;
+            vendor(rng, n)
+        }
+    }
+}
+
+fn rand_resource(rng: &mut Rng, kind: u64) -> Sx {
+    l(vec![a(rng.below(2)), a(rng.val(16)), rand_resource_id(rng, kind)])
+}
+
+fn controller(rng: &mut Rng, resources: Vec<Sx>) -> Sx {
+    l(vec![a(1), a(rng.below(2)), rand_gas(rng), a(rng.val(32)), a(rng.val(32)), a(rng.val(16)), l(resources)])
+}
+
+fn rand_controller(rng: &mut Rng, nres: u64) -> Sx {
+    let res = (0..nres)
+        .map(|_| {
+            let k = rng.below(5);
+            rand_resource(rng, k)
+        })
+        .collect();
+    controller(rng, res)
+}
+
+fn smallest(rng: &mut Rng) -> Sx {
+    controller(rng, vec![])
+}
+
+fn rand_ctor(rng: &mut Rng) -> Sx {
+    l(rand_hdr(rng))
+}
+
+pub fn gen(tier: &str, rng: &mut Rng, emit: &mut Emit) {
+    // empty history
+    for _ in 0..4 {
+        let c = rand_ctor(rng);
+        emit.case(22, history(rng, c, vec![]));
+    }
+    // one controller: no resource; one resource of each kind; vendor payloads of every length 0..40
+    for _ in 0..12 {
+        let c = rand_ctor(rng);
+        let op = smallest(rng);
+        emit.case(22, history(rng, c, vec![op]));
+    }
+    for kind in 0..5u64 {
+        for _ in 0..8 {
+            let c = rand_ctor(rng);
+            let r = rand_resource(rng, kind);
+            let op = controller(rng, vec![r]);
+            emit.case(22, history(rng, c, vec![op]));
+        }
+    }
+    for n in 0..=40usize {
+        for rtype in 0..2u64 {
+            let c = rand_ctor(rng);
+            let r = l(vec![a(rtype), a(rng.val(16)), vendor(rng, n)]);
+            let op = controller(rng, vec![r]);
+            emit.case(22, history(rng, c, vec![op]));
+        }
+    }
+    // all ordered pairs of resource kinds inside one controller, and in two controllers
+    for k1 in 0..5u64 {
+        for k2 in 0..5u64 {
+            let c = rand_ctor(rng);
+            let r1 = rand_resource(rng, k1);
+            let r2 = rand_resource(rng, k2);
+            let op = controller(rng, vec![r1, r2]);
+            emit.case(22, history(rng, c, vec![op]));
+            let c = rand_ctor(rng);
+            let r1 = rand_resource(rng, k1);
+            let r2 = rand_resource(rng, k2);
+            let ops = vec![controller(rng, vec![r1]), controller(rng, vec![r2])];
+            emit.case(22, history(rng, c, ops));
+        }
+    }
+    // controllers with 0..8 resources of all kinds; 0..70 resources now and then
+    for nres in 0..=8u64 {
+        for _ in 0..10 {
+            let c = rand_ctor(rng);
+            let op = rand_controller(rng, nres);
+            emit.case(22, history(rng, c, vec![op]));
+        }
+    }
+    for nres in [9u64, 16, 31, 50, 70] {
+        let c = rand_ctor(rng);
+        let op = rand_controller(rng, nres);
+        emit.case(22, history(rng, c, vec![op]));
+    }
+    // a controller with 300 of the smallest resources (resource count 255 -> 256)
+    {
+        let c = rand_ctor(rng);
+        let res = (0..300).map(|_| rand_resource(rng, 0)).collect();
+        let op = controller(rng, res);
+        emit.case(22, history(rng, c, vec![op]));
+    }
+    // histories of 0..20 controllers
+    let n = if tier == "thorough" { 3000 } else { 200 };
+    for i in 0..n {
+        let c = rand_ctor(rng);
+        let len = if i < 21 { i as u64 } else { rng.range(1, 20) };
+        let ops = (0..len)
+            .map(|_| {
+                let nres = rng.below(9);
+                rand_controller(rng, nres)
+            })
+            .collect();
+        emit.case(22, history(rng, c, ops));
+    }
+    // 300 of the smallest controllers (controller count 255 -> 256)
+    {
+        let c = rand_ctor(rng);
+        let ops = (0..300).map(|_| smallest(rng)).collect();
+        emit.case(22, history(rng, c, ops));
+    }
+    // a table crossing 65535 -> 65536 bytes: four controllers of about 20000 bytes each
+    {
+        let c = rand_ctor(rng);
+        let ops = (0..4)
+            .map(|_| {
+                let n = rng.range(19_000, 21_000) as usize;
+                let r = l(vec![a(rng.below(2)), a(rng.val(16)), vendor(rng, n)]);
+                let r2 = rand_resource(rng, 1);
+                controller(rng, vec![r, r2])
+            })
+            .collect();
+        emit.case(22, history(rng, c, ops));
+    }
+    // the largest controller that fits: 28 + 65507 = 65535 bytes
+    {
+        let c = rand_ctor(rng);
+        let r = l(vec![a(0), a(0), vendor(rng, 65_507 - 8)]);
+        let ops = vec![smallest(rng), controller(rng, vec![r]), smallest(rng)];
+        emit.case(22, history(rng, c, ops));
+    }
+}
+
+/// C18: the two 16-bit Length fields (resource, controller) at field maximum, maximum + 1 and far beyond.
+/// (More than 65535 resources would need at least 65536 * 20 bytes, which the controller length refuses long before.)
+pub fn gen18(tier: &str, rng: &mut Rng, emit: &mut Emit) {
+    STRICT.with(|s| s.set(true));
+    gen18_cases(tier, rng, emit);
+    STRICT.with(|s| s.set(false));
+}
+
+fn gen18_cases(_tier: &str, rng: &mut Rng, emit: &mut Emit) {
+    // one vendor-specific resource of n payload bytes: resource length 8 + n; 65527 -> 65535 (the resource is accepted, no
+    // controller can hold it), 65528 -> 65536, 70000
+    for n in [65_499usize, 65_500, 65_526, 65_527, 65_528, 70_000, 140_000] {
+        for before in 0..2 {
+            let c = rand_ctor(rng);
+            let r = l(vec![a(rng.below(2)), a(rng.val(16)), vendor(rng, n)]);
+            let mut ops = Vec::new();
+            if before == 1 {
+                ops.push(rand_controller(rng, 2));
+            }
+            ops.push(controller(rng, vec![r]));
+            ops.push(smallest(rng));
+            emit.case(22, history(rng, c, ops));
+        }
+    }
+    // a controller whose accumulated length crosses 65535: 28 + k * (8 + n)
+    for (k, n) in [(2usize, 32_745usize), (2, 32_746), (3, 21_827), (3, 21_828), (64, 1000), (65, 1000), (10, 6542), (10, 6543)] {
+        let c = rand_ctor(rng);
+        let res = (0..k).map(|_| l(vec![a(rng.below(2)), a(rng.val(16)), vendor(rng, n)])).collect();
+        let ops = vec![smallest(rng), controller(rng, res), smallest(rng)];
+        emit.case(22, history(rng, c, ops));
+    }
+    // exactly at the maximum with the smallest resources: 28 + 3275 * 20 = 65528; one more 20-byte resource does not fit
+    for k in [3275usize, 3276] {
+        let c = rand_ctor(rng);
+        let res = (0..k).map(|_| rand_resource(rng, 0)).collect();
+        let ops = vec![controller(rng, res)];
+        emit.case(22, history(rng, c, ops));
+    }
+}
